@@ -174,6 +174,12 @@ def run(chk):
     again += [l for l in lines if l.startswith('o_fuzz') or l.startswith('o_trunc')]
     res2 = vlib.correspond(chk, hub, d, again, timeout=1500)
     report(chk, res2, 'h_map_ub')
+    import glob, os
+    for f in glob.glob('/tmp/gv_map_*'):      # scratch files left behind by cases that crashed or timed out
+        try:
+            os.remove(f)
+        except OSError:
+            pass
     chk.rule = ('CCP4: 18 valid hand-made headers (6 axis orders x 3 space groups) x Ccp4<float>/Ccp4<int8_t> x 3 set-up modes x '
                 'each of the 14 modelled header words set to {0, +-1, INT_MIN(+1), INT_MAX(-1), true+-1, 2*true, -true, 2^16, 2^21, 2^22}, '
                 'pairs of negative extents / sampling words, wrapped point counts, incompatible sampling: outcome and result '
